@@ -25,13 +25,13 @@ PROPS = {
     "C04": {
         "level": "proof",
         "verus": ["limits", "parser_core"],
-        "frame": ["only_lexer_next_makes_limit_errors", "grammar_uses_primitives_only"],
+        "frame": ["only_lexer_next_makes_limit_errors", "grammar_uses_primitives_only", "peek_while_is_the_plain_loop"],
         "explanation": "Verus proves the LimitTracker contract (reached <=> current+1 > limit; balanced current; high-water mark) and the token-limit "
                        "contract of Lexer::next (at most `limit` calls of Cursor::advance; a limit error item iff the limit is exhausted, after which the lexer "
-                       "is finished and returns None forever); on the parser primitives and the recursion-guarded grammar functions (ty::parse, selection_set, "
-                       "field_set, object_field): the tree text only grows at the end and stays a prefix of the input, errors are only appended and frozen once "
+                       "is finished and returns None forever); on the parser primitives and every recursion-guarded grammar function (ty::parse, selection_set, "
+                       "field_set, object_field, list_value): the tree text only grows at the end and stays a prefix of the input, errors are only appended and frozen once "
                        "the token limit was hit (no error after the token-limit error), recursion bookkeeping is balanced and never exceeds the limit.",
-        "not_decided": ["global 'recursion-limit error iff nesting depth exceeds r' over the whole grammar (list_value and the definitions are closure-driven; not extracted)",
+        "not_decided": ["global 'recursion-limit error iff nesting depth exceeds r' as one statement over the token stream (each guarded function is proved to check, balance and never exceed the limit; the iff is not composed)",
                         "reached-figures copy in apollo_compiler::parser::parse_common (generic over a parse closure; not extracted)",
                         "Cursor::advance itself (external_body: one call = one lexer item, never a limit error; second half checked syntactically)",
                         "'limit error iff the unlimited token stream is longer than n' needs the unlimited stream as a ghost; only the per-call iff is proved"],
@@ -132,9 +132,9 @@ PROPS = {
     "C01": {
         "level": "proof",
         "verus": ["parser_core", "limits", "lexer"],
-        "frame": ["grammar_uses_primitives_only"],
-        "explanation": "PARTIAL. Verus proves on the extracted lexer state machine (termination, cursor preconditions) and on the extracted parser primitives (17) and the token-consuming grammar functions (ty, standalone_ty, ty::parse, named_type, "
-                       "selection_set, field_set, object_field) and entry points parse_type / parse_selection_set: no panic (pop's expect is unreachable: every caller has a "
+        "frame": ["grammar_uses_primitives_only", "peek_while_is_the_plain_loop"],
+        "explanation": "PARTIAL. Verus proves on the extracted lexer state machine (termination, cursor preconditions) and on the extracted parser primitives (21) and grammar functions (ty, standalone_ty, ty::parse, named_type, selection_set, field_set, and the whole "
+                       "value cycle value / list_value / object_value / object_field / enum_value / default_value) and entry points parse_type / parse_selection_set: no panic (pop's expect is unreachable: every caller has a "
                        "look-ahead token; push_ignored's unreachable!() is unreachable by the struct invariant; unreachable!() arms of the entry points; no arithmetic overflow "
                        "in LimitTracker); termination (next_token, skip_ignored and the recursion of ty::parse decrease a lexer measure); recursion depth of the extracted recursive "
                        "functions is bounded by the recursion limit; recursion bookkeeping is balanced (document() asserts it is).",
